@@ -2,7 +2,7 @@
    ExtrOcamlBasic only; Z / positive / nat / N stay inductive.  No Extract
    Constant of our own. *)
 From Coq Require Import Extraction ExtrOcamlBasic.
-From Verif Require Import Base.GoPrim Model.IoUtil Model.Containers Model.SubnetSet Model.Cache.
+From Verif Require Import Base.GoPrim Model.IoUtil Model.Containers Model.SubnetSet Model.Cache Model.UrlRedact.
 
 Extraction Language OCaml.
 Extraction "model.ml"
@@ -10,4 +10,5 @@ Extraction "model.ml"
   lr_run_replay lr_run_stream tw_run_replay
   ring_run ring_new set_run map_range_ok
   is_locally_served is_special_purpose doc_locally_served doc_special_purpose cex_ls4 cex_ls6 cex_sp4 cex_sp6
-  normalize_conf cache_run scripted_cb.
+  normalize_conf cache_run scripted_cb
+  redact redact_err.
